@@ -70,6 +70,9 @@ def register(ix):
                               "pulled(flow) == 0"]),
             Contract(SQ, "Sequence.run", name="Sequence.run[list flow]",
                      params={"self": "Self[Sequence]", "flow": "Lst[V]"}, result="Iter[V]",
+                     # documented: the flow entering the first element always supports next() (elements such as Count or a
+                     # negative Slice rely on it), whatever container the caller passed
+                     at_call={"run": ["is_iterator(call_args[0])"]},
                      loops={0: LoopSpec(invariant=[
                          "pulled(flow) == 0",
                          "same(content(flow), seq_run(self._data_seq, old(flow), _i))"])},
